@@ -337,6 +337,7 @@ func newRTPEncoder(
 
 	case *format.AC3:
 		wrapped := &rtpac3.Encoder{
+			PayloadMaxSize:        rtpMaxPayloadSize,
 			PayloadType:           forma.PayloadTyp,
 			SSRC:                  ssrc,
 			InitialSequenceNumber: initialSequenceNumber,
